@@ -250,8 +250,14 @@ def compare(ref, good, other, hp_ref=None, hp_other=None, min_points=3):
         return False, "differs at points %s (ref %s other %s)" % (bad[:3], [float(ref[i]) for i in bad[:3]], [complex(other[i]) for i in bad[:3]])
     r, o = hp_ref(bad), hp_other(bad)
     still = []
+    dropped = 0
     for i in bad:
-        if r.get(i) is None or o.get(i) is None:
+        if r.get(i) is None:
+            # the reference is not finite at 50 digits: its double value was a cancellation artefact (e.g. 1/(x - 1/(1/x))),
+            # so the point cannot decide (DESIGN.md section 7, rule 5)
+            dropped += 1
+            continue
+        if o.get(i) is None:
             still.append(i)
             continue
         try:
@@ -265,6 +271,8 @@ def compare(ref, good, other, hp_ref=None, hp_other=None, min_points=3):
                 still.append(i)
         except Exception:
             still.append(i)
+    if len(idx) - dropped < min_points:
+        return None, "only %d points with a finite reference at 50 digits" % (len(idx) - dropped)
     if not still:
         return True, "decided in 50-digit arithmetic"
     return False, "differs at points %s: ref %s other %s" % (
